@@ -205,7 +205,9 @@ type CallSite struct {
 	Callee Callee
 }
 
-func (c CallSite) String() string { return fmt.Sprintf("%s -> %s", short(c.Fn.String()), c.Callee.Name) }
+func (c CallSite) String() string {
+	return fmt.Sprintf("%s -> %s", short(c.Fn.String()), c.Callee.Name)
+}
 
 // Calls lists the call sites of fn (deep: including anonymous functions) whose callee satisfies pred.
 func Calls(fn *ssa.Function, deep bool, pred func(Callee) bool) []CallSite {
